@@ -10,7 +10,7 @@
  *   scn <name> [budget=<sec>]
  *     use <file>                         emit Stream event
  *     open <h> <file> <seek|stream|notell|test> [init=<n>]
- *     rf <h> <len> | ri <h> <len> <word> <sgned> <be> | rfn <h> <len> <count>  (repeat read_float count times / until EOF if count<0)
+ *     rf <h> <len> | ri <h> <len> <word> <sgned> <be> | rfn <h> <len> <count> | rin <h> <len> <word> <sgned> <be> <count>  (repeat the read count times / until EOF if count<0)
  *     ps|psp|rs|psl|pspl|rsl <h> <target>      target: integer or symbolic (see resolve)
  *     ts|tsp|tsl|tspl <h> <link> <rel> <q4>    time = sum_{i<link} N_i/rate_i + (rel+q4/4)/rate_link ; link<0 => raw seconds*1000 in rel
  *     hr <h> <flag> | xl <h1> <h2> | q <h> | tell <h> | clear <h>
@@ -223,7 +223,7 @@ static int qref(float f,int word,int sgned){
 static void f32parts(float f,int *s,int *e,int *m){ uint32_t u; memcpy(&u,&f,4); *s=u>>31; *e=(u>>23)&255; *m=u&0x7fffff; }
 
 static void halve_filter(float **pcm,long ch,long n,void *arg){ (void)arg; for(long c=0;c<ch;c++) for(long i=0;i<n;i++) pcm[c][i]*=0.5f; }
-static void do_readi(int h,long len,int word,int sgned,int be,int gain){
+static long do_readi(int h,long len,int word,int sgned,int be,int gain){
   hnd_t *x=&H[h]; OggVorbis_File *vf=&x->vf; int bs=-7;
   static unsigned char buf[1<<20]; static unsigned char guard[64];
   if(len>(long)sizeof(buf)-64) len=sizeof(buf)-64;
@@ -270,6 +270,7 @@ static void do_readi(int h,long len,int word,int sgned,int be,int gain){
     ev_i("id", ok?ta:-1); ev_i("mf", ok?0:frames);
   }
   ev_state(h); ev_end();
+  return n;
 }
 
 /* ---- integer read with TLC-chosen float values injected through ov_read_filter ---- */
@@ -417,6 +418,7 @@ static int run_scenario(int from,int to,const char *name,int budget){
     else if(!strcmp(c,"rfn")&&nt>=4){ int h=atoi(tok[1]); long cnt=atol(tok[3]); for(long i=0;(cnt<0||i<cnt)&&i<400000;i++){ long r=do_readf(h,atol(tok[2])); if(r<=0&&(cnt<0||r!=OV_HOLE)) break; } }
     else if(!strcmp(c,"rif")&&nt>=7) do_readi_inj(atoi(tok[1]),atol(tok[2]),atoi(tok[3]),atoi(tok[4]),atoi(tok[5]),tok[6]);
     else if(!strcmp(c,"ri")&&nt>=6) do_readi(atoi(tok[1]),atol(tok[2]),atoi(tok[3]),atoi(tok[4]),atoi(tok[5]),0);
+    else if(!strcmp(c,"rin")&&nt>=7){ int h=atoi(tok[1]); long cnt=atol(tok[6]); for(long i=0;(cnt<0||i<cnt)&&i<400000;i++){ long r=do_readi(h,atol(tok[2]),atoi(tok[3]),atoi(tok[4]),atoi(tok[5]),0); if(r<=0&&(cnt<0||r!=OV_HOLE)) break; } }
     else if(!strcmp(c,"rig")&&nt>=6) do_readi(atoi(tok[1]),atol(tok[2]),atoi(tok[3]),atoi(tok[4]),atoi(tok[5]),1);   /* through ov_read_filter with a gain-1/2 filter */
     else if((!strcmp(c,"ps")||!strcmp(c,"psp")||!strcmp(c,"rs")||!strcmp(c,"psl")||!strcmp(c,"pspl")||!strcmp(c,"rsl"))&&nt>=3) do_seek(atoi(tok[1]),c,tok[2]);
     else if((!strcmp(c,"ts")||!strcmp(c,"tsp")||!strcmp(c,"tsl")||!strcmp(c,"tspl"))&&nt>=5) do_tseek(atoi(tok[1]),c,atol(tok[2]),atol(tok[3]),atol(tok[4]));
